@@ -82,6 +82,9 @@ def c03(ctx, v):
     M.r_returns(ctx, v)
     D.r_keymut(ctx, v, only=("k3",))
     M.r_strat(ctx, v)
+    # the histories C03 quantifies over contain push_increase / push_decrease: "the last priority assigned" is decided there by
+    # one strict comparison with the stored priority (a tie assigns nothing and hands the offered priority back)
+    M.r_strict(ctx, v)
 
 
 def r_absent(ctx, v):
@@ -120,12 +123,19 @@ def r_absent(ctx, v):
 
 
 def c04(ctx, v):
-    fixture_once(ctx, ["R-UNSAFEKINDS"])
+    fixture_once(ctx, ["R-UNSAFEKINDS", "R-HINT"])
+    # an allocation request computed from the UPPER bound of a size_hint (not a promise) is a capacity-overflow panic on a
+    # legal iterator
+    M.r_hint(ctx, v)
     T.r_tables(ctx, v, want=("R-GROW",))
     T.r_growval(ctx, v)
     T.r_repair(ctx, v)
     if S:
         S.r_prim(ctx, v)
+        # the sifts write heap[] / qp[] through unchecked accesses cell by cell: that the two stay inverse permutations (what
+        # every later justification of R-BOUNDS starts from) is a property of the exact write sequence - the reviewed skeleton
+        for Q in (PQ, DPQ):
+            S.r_sift(ctx, v, Q)
     D.r_writers(ctx, v)
     D.r_unsafekinds(ctx, v)
     D.r_reset(ctx, v)
@@ -205,6 +215,9 @@ def c11(ctx, v):
 
 def c12(ctx, v):
     D.r_keymut(ctx, v)
+    # "lookups ... address the same element": get / get_mut / get_priority of the queues return what the keyed lookup of the
+    # map returns for that key (and nothing a shortcut found by other means)
+    M.r_readers(ctx, v)
     # edits made through the mutable accessors persist only if those accessors address the element they claim to:
     # same position as the matching peek (R-EXTREME) and the right table with the right kind of subscript (R-UNITS)
     O.r_extreme(ctx, v, PQ, only=("peek", "peek_mut"))
@@ -242,12 +255,19 @@ def c15(ctx, v):
     only = lambda root, d: "Deserialize" in root.key
     O.r_restore(ctx, v, PQ, only=only)
     O.r_restore(ctx, v, DPQ, only=only)
-    T.r_tables(ctx, v, want=("R-GROW",), only=lambda f: "serde" in f.key or "visit_seq" in f.key)
+    # the table-writing bodies the reader runs: its own, or the reviewed bulk constructors it hands the pairs to
+    vs = "<store::serde::StoreVisitor as Visitor>::visit_seq"
+    reached = set(v.fx.reach(vs)) if v.prog.fn(vs) is not None else set()
+    T.r_tables(ctx, v, want=("R-GROW",), only=lambda f: "serde" in f.key or "visit_seq" in f.key or f.key in reached)
     n = sum(1 for o in ctx.obs if o.rule == "R-RESTORE" and o.config == "serde")
     ctx.floor("R-RESTORE[Deserialize]", n, 2)
 
 
 def c16(ctx, v):
+    fixture_once(ctx, ["R-UNSAFEKINDS"])
+    # "clear drops them all", "drain yields every stored element": the map's own clear / drain do, unless the crate forgets
+    # ownership somewhere (mem::forget, ManuallyDrop, leak, raw writes)
+    D.r_unsafekinds(ctx, v)
     D.r_reset(ctx, v)
     D.r_dropless(ctx, v)
     I.r_esi(ctx, v, only_types=lambda T_: T_.endswith("Drain"), key_floor=1)
@@ -293,14 +313,17 @@ PROPS = {
             "R-ABSENT (absent-item paths are effect-free), R-ASSIGN (the priority stored is the offered one), R-READERS (len/is_empty/get*/iter/"
             "into_iter/into_vec read the map / size and the queue wrappers return what the Store functions return), R-RETURNS (provenance of every "
             "returned old priority / removed pair), R-ONCE/R-IFF for the pop_if family, R-KEYMUT k3 (sifts move indices, never entries), "
-            "R-STRAT (which of item/priority a bulk path writes for a present key).",
+            "R-STRAT (which of item/priority a bulk path writes for a present key), R-STRICT (push_increase / push_decrease assign only on one "
+            "strict comparison; a tie hands the offered priority back).",
             "trusted": [TRUST_RUSTC, "indexmap: swap_remove moves only the last entry"], "assumptions": []},
     "C04": {"rules": [c04], "explanation":
             "R-BOUNDS: every get_unchecked(_mut), unsafe call, unwrap and overflow-checked arithmetic site has a recognised justification relative "
             "to the representation invariant (dominating guard, value read from the inverse table, index returned by indexmap, parameter -> "
             "precondition discharged at every call site; a guard on the length is worth only what the removals between the read of the length "
             "and the use leave of it); R-UNITS (heap subscripts are Positions, qp/map-slot subscripts are Indexes); R-GROW, R-GROWVAL, "
-            "R-REPAIR, R-PRIM, R-RESET (structural conditions for the invariant); R-WRITERS (who writes the tables); R-UNSAFEKINDS; R-CURSOR.",
+            "R-REPAIR, R-PRIM, R-RESET (structural conditions for the invariant); R-SIFT (the sift functions write heap[]/qp[] cell by cell: the reviewed "
+            "write skeleton is what keeps them inverse permutations); R-WRITERS (who writes the tables); R-UNSAFEKINDS; R-CURSOR; R-HINT (no allocation "
+            "request is computed from the upper bound of a size_hint).",
             "trusted": [TRUST_RUSTC], "assumptions": ["container lengths <= isize::MAX (no overflow of len+1, 2*i+2)"]},
     "C05": {"rules": [c05], "explanation":
             "R-COST: comparison-cost class of every public entry point from the reachability of priority-comparison sites (parametricity: "
@@ -338,7 +361,7 @@ PROPS = {
             "R-STRICT: exactly one priority comparison, normalised for operand order, strict and in the right direction between the offered "
             "priority and the stored one; absent item is pushed; true edge returns push(item, priority), false edge is effect-free and returns "
             "Some(priority); R-RESTORE for the push family.", "trusted": [TRUST_RUSTC], "assumptions": []},
-    "C12": {"rules": [c12], "explanation":
+    "C12": {"rules": [c12], "explanation": "R-READERS (get / get_mut / get_priority return the result of the keyed map lookup for the given key); "
             "R-KEYMUT, a who-may-call rule over the typed indexmap API: (k1) the set of functions that can obtain `&mut I` of a stored key equals "
             "the sanctioned accessor set, (k2) push/push_increase/push_decrease/change_priority(_by) reach neither such a function nor any "
             "entry-removing or reordering map write, (k3) the sift functions never write the map, (k4) lookups forward the borrowed key unmodified; R-EXTREME / R-UNITS for the mutable "
@@ -367,7 +390,8 @@ PROPS = {
     "C16": {"rules": [c16], "explanation":
             "R-RESET: Store::drain and Store::clear empty heap, qp, size and map on every normal path; in drain the three table resets dominate the "
             "creation of the inner full-range map drain and the returned iterator wraps exactly it (nothing deferred to a destructor, so "
-            "mem::forget is harmless); public drain/clear only delegate. R-DROPLESS; R-ESI wiring for Drain.",
+            "mem::forget is harmless); public drain/clear only delegate. R-DROPLESS; R-ESI wiring for Drain; R-UNSAFEKINDS (the crate itself never "
+            "forgets ownership: no mem::forget / ManuallyDrop / leak / raw write, so what the map's clear and drain release is dropped).",
             "trusted": [TRUST_RUSTC, "indexmap::Drain empties the map even when leaked"], "assumptions": []},
     "C17": {"rules": [c17], "explanation":
             "R-CAPFWD: each capacity method of Store calls the same-named method of map, heap and qp with the unmodified argument on every "
